@@ -315,5 +315,6 @@ EntriesGone == \A c \in Conns : cs[c] = "done" => ~ent[c]
 (* vacuity guards: expected to be VIOLATED *)
 ReachSome == \A p \in Peers : addr[p].mode # "some"
 ReachRecentBig == ~(addr["R"].ttl = "recent" /\ addr["R"].n > PsMaxAddrs)
+ReachRun == \A c \in Conns : idf[c] # "run"
 ReachDoneAfterDisc == ~(\E c \in Conns : cs[c] = "done" /\ idf[c] = "run")
 =============================================================================
